@@ -145,6 +145,19 @@ Section XKey.
       cbn [res_map]. intro H. injection H as <-. destruct (xk_parse_sound e k0 E) as [Hwf Hs].
       exists k0. rewrite Hs. auto.
     Qed.
+
+    (* decode -> encode gives the string back exactly when the string carries a zero parent fingerprint (master keys) *)
+    Theorem xk_string_decode_encode_master t k : xk_of_string ver_pub ver_priv pub_valid dsha t = Ok k ->
+      (exists c, In c t /\ c <> one_char) ->
+      (forall k0, b58_decode_check dsha t = Ok (xk_serialize ver_pub ver_priv k0) -> xk_pfp k0 = zero4) ->
+      xk_to_string ver_pub ver_priv dsha k = Ok t.
+    Proof.
+      intros H Hne Hz. destruct (xk_of_string_sound t k H) as [k0 [Hd [_ ->]]].
+      assert (E : xk_forget_parent k0 = k0).
+      { pose proof (Hz k0 Hd) as Hp. unfold xk_forget_parent. destruct k0; cbn in *. subst. reflexivity. }
+      rewrite E. apply b58check_accepts_only_matching in Hd. unfold xk_to_string, b58_encode_check.
+      apply b58_decode_encode; assumption.
+    Qed.
   End XStr.
 End XKey.
 
